@@ -73,6 +73,7 @@ func (p PPermute) String() string {
 type MREvent struct {
 	ID int
 	V  float64
+	TS int64 // event time (ms); only used with WITHIN
 }
 
 // DefCtx is what a DEFINE condition sees: the partition's events, the match start, the
@@ -229,11 +230,20 @@ const (
 // rule. skip is SkipPastLast, SkipNextRow, "TO FIRST X" or "TO LAST X". defined=false when the
 // skip target is ambiguous among the valid labelings or would not advance.
 func ExpectedMatches(p Pat, def Define, ev []MREvent, skip string) (ms []MRMatch, defined bool) {
+	return ExpectedMatchesWithin(p, def, ev, skip, 0)
+}
+
+// ExpectedMatchesWithin: as ExpectedMatches; with within > 0 a run is a valid match only if its last
+// event is at most within ms after its first one.
+func ExpectedMatchesWithin(p Pat, def Define, ev []MREvent, skip string, within int64) (ms []MRMatch, defined bool) {
 	s := 0
 	for s < len(ev) {
 		all := MatchesFrom(p, def, ev, s)
 		best := -1
 		for e := range all {
+			if within > 0 && ev[e-1].TS-ev[s].TS > within {
+				continue
+			}
 			if e > best {
 				best = e
 			}
